@@ -168,7 +168,7 @@ fn run_job(job: Job) -> String {
             "ok".to_string()
         }
         Job::Full(k) => {
-            let dir = std::env::temp_dir().join(format!("duck-c07-full-{}", std::process::id()));
+            let dir = std::env::temp_dir().join(format!("duck-c07-full-{}-{:?}", std::process::id(), std::thread::current().id()).replace(['(', ')'], ""));
             let _ = std::fs::create_dir_all(dir.join("sub"));
             let _ = std::fs::write(dir.join("sub").join("a.txt"), "x");
             let _ = std::fs::write(dir.join(".hidden"), "h");
@@ -179,6 +179,8 @@ fn run_job(job: Job) -> String {
             ctx.variables.insert("d".to_string(), dir.to_string_lossy().to_string());
             let halt = guarded_halt(HALT_MS);
             let _ = duckscript::runner::run_script(FULL_SCRIPTS[k % FULL_SCRIPTS.len()], ctx, Some(quiet_env(Some(halt))));
+            // (the scratch directory is private to this process and job kind; nothing is left behind)
+            let _ = std::fs::remove_dir_all(&dir);
             "ok".to_string()
         }
         Job::TestFile(content) => {
